@@ -413,6 +413,9 @@ func stuckFrame(gid string) (string, string) {
 func (r *runner) transitionData(s Step) []byte {
 	cmd := controlcommands.NewMesosCommand_Transition(r.envId, []controlcommands.MesosCommandTarget{{
 		AgentId: r.ti.AgentID, ExecutorId: r.ti.Executor.ExecutorID, TaskId: r.ti.TaskID}}, s.Src, s.Evt, s.Dst, nil)
+	if s.CmdTimeoutMs > 0 {
+		cmd.ResponseTimeout = time.Duration(s.CmdTimeoutMs) * time.Millisecond
+	}
 	b, _ := json.Marshal(cmd)
 	return b
 }
